@@ -437,6 +437,14 @@ class Evaluator:
                 r = Poly.const(1) - a            # logical negation of a value known to be 0 or 1 (a widened comparison result)
             elif op == "xor" and a.is_const() and a.const_value() == 1 and _is01(b):
                 r = Poly.const(1) - b
+            elif op == "and" and b.is_const() and b.const_value() == 1 and (a.divexact(Poly.const(2)) is not None and all(c.denominator == 1 for c in a.divexact(Poly.const(2)).t.values())):
+                r = Poly()                       # the low bit of an even number
+            elif op == "and" and b.is_const() and b.const_value() == 1 and sign(a, signs) in (POS, NONNEG, ZERO):
+                r = a - sdiv(a, Poly.const(2), signs) * 2          # the low bit of a non-negative number: its remainder modulo 2
+            elif op == "and" and b.is_const() and b.const_value() == -2 and (a.divexact(Poly.const(2)) is not None and all(c.denominator == 1 for c in a.divexact(Poly.const(2)).t.values())):
+                r = a                            # clearing the low bit of an even number
+            elif op == "and" and b.is_const() and b.const_value() == -2 and sign(a, signs) in (POS, NONNEG, ZERO):
+                r = sdiv(a, Poly.const(2), signs) * 2
             elif op == "or" and (a.is_zero() or b.is_zero()):
                 r = b if a.is_zero() else a
             elif op == "or":
@@ -530,7 +538,9 @@ class Evaluator:
                 # every listed constant is excluded by the case's sign assumptions: the default label is taken
                 for cm in re.finditer(r"\w+ (-?\d+), label (\S+)", mm.group(4)):
                     if sign(v - int(cm.group(1)), signs) not in (POS, NEG, NONZERO):
-                        raise Inconclusive("switch on a value that is not fixed by the case (%r) in %s" % (v, fname))
+                        e_ = Inconclusive("switch on a value that is not fixed by the case (%r) in %s" % (v, fname))
+                        e_.rel = ("eq", v, Poly.const(int(cm.group(1))))
+                        raise e_
                 return ("br", mm.group(3))
             for cm in re.finditer(r"\w+ (-?\d+), label (\S+)", mm.group(4)):
                 if int(cm.group(1)) == int(v.const_value()):
@@ -814,8 +824,13 @@ class Evaluator:
 # ---------------------------------------------------------------------------------------------------------------
 def emit_ir(src_path, out_path, defines=("-DNDEBUG",), opt="-O2", include=None):
     from . import common
+    defines = list(defines)
+    if not any("inline-threshold" in d for d in defines):
+        # the closed forms need the whole operation in one function: do not let the result depend on the inliner's size heuristics (a few added
+        # lines in a small accessor otherwise leave a call behind, which the evaluator reports as undecided)
+        defines += ["-mllvm", "-inline-threshold=100000"]
     cmd = [common.CXX, common.STD, "-I" + (include or common.INCLUDE), opt, "-S", "-emit-llvm", "-Wno-everything",
-           "-fno-exceptions" if False else "-fexceptions"] + list(defines) + [src_path, "-o", out_path]
+           "-fno-exceptions" if False else "-fexceptions"] + defines + [src_path, "-o", out_path]
     r = common.run(cmd)
     if r.returncode != 0:
         raise common.AnalysisBroken("driver %s does not compile: %s" % (src_path, r.stderr[:3000]))
